@@ -4,7 +4,9 @@ import (
 	"bytes"
 	"encoding/hex"
 	"fmt"
+	"os"
 	"reflect"
+	"time"
 	"strings"
 
 	"github.com/bronlabs/bron-crypto/pkg/base/serde"
@@ -143,6 +145,18 @@ func c12RunCase[T any](c *Ctx, r *Rng, tc c12Case[T], scale int) {
 			c.Violation(fmt.Sprintf("%s: re-marshal failed: %s", tc.name, res3))
 			continue
 		}
+		// the encoding must be a function of the value: decode/encode again a few times (catches
+		// encodings that depend on map iteration order)
+		for k := 0; k < 5 && bytes.Equal(b3, b1); k++ {
+			if _, vk, okk := c12Decode[T](b1); okk {
+				if bk, rk := c12Marshal(vk); rk == "ok" {
+					b3 = bk
+				}
+			}
+		}
+		if !bytes.Equal(b3, b1) {
+			c.Violation(fmt.Sprintf("%s: encoding is not deterministic: marshal(unmarshal(b)) != b for b=%s got %s", tc.name, hexBytes(b1), hexBytes(b3)))
+		}
 		c.Emit(fmt.Sprintf("canon %s %s", tc.name, hexBytes(b1)), hexBytes(b3))
 
 		for mi := 0; mi < nMut; mi++ {
@@ -220,6 +234,10 @@ func runC12(c *Ctx) {
 	c12Generic(c, scale)
 	for i, t := range c12Types {
 		r := NewRng(c.Seed, 12000+uint64(i))
+		t0 := time.Now()
 		t.run(c, r, scale)
+		if d := time.Since(t0); d > 2*time.Second {
+			fmt.Fprintf(os.Stderr, "c12: %s took %v\n", t.name, d)
+		}
 	}
 }
